@@ -196,21 +196,18 @@ where
 
     fn next(&mut self) -> Option<Self::Item> {
         let step @ (u, w) = self.stack.pop()?;
-        let visited_ptr = self.visited.as_mut_ptr();
-        let visited_u = unsafe { visited_ptr.add(u) };
 
-        unsafe {
-            if *visited_u {
-                return None;
-            }
-
-            *visited_u = true;
+        // Checked: a source or a successor may lie outside `0..order`.
+        if self.visited[u] {
+            return None;
         }
+
+        self.visited[u] = true;
 
         let w = w + 1;
 
         for v in self.digraph.out_neighbors(u) {
-            if !unsafe { *visited_ptr.add(v) } {
+            if !self.visited[v] {
                 self.stack.push((v, w));
             }
         }
